@@ -288,6 +288,22 @@ func (c *Client) Recv(timeout time.Duration) (mqttp.IFace, error) {
 			c.LastRaw = append([]byte{}, c.buf[:n]...)
 			pkt, _, err := mqttp.Decode(c.Ver, c.buf[:n])
 			c.buf = append([]byte{}, c.buf[n:]...)
+			if err != nil && c.Ver == mqttp.ProtocolV50 && len(c.LastRaw) >= 5 && c.LastRaw[0]>>4 == 9 {
+				// the vlapi decoder rejects a v5 SUBACK carrying failure codes: rebuild it by hand
+				// (fixed header 2 bytes for these short packets, packet id, property length 0, codes)
+				raw := c.LastRaw
+				sa := mqttp.NewSubAck(mqttp.ProtocolV50)
+				sa.SetPacketID(mqttp.IDType(uint16(raw[2])<<8 | uint16(raw[3])))
+				ok := raw[4] == 0
+				for _, b := range raw[5:] {
+					if sa.AddReturnCode(mqttp.ReasonCode(b)) != nil {
+						ok = false
+					}
+				}
+				if ok {
+					return sa, nil
+				}
+			}
 			if err != nil {
 				return nil, fmt.Errorf("decode: %v", err)
 			}
